@@ -811,23 +811,163 @@ func (w *world) memoDiscipline(fd *ast.FuncDecl, recv types.Object, memo, stamp,
 			return false, "stores the memo without writing the stamp " + stamp.String() + " from " + counter.String()
 		}
 	}
-	// guarded-hit if statements: the condition is a pure conjunction with the stamp test
-	guardedBody := func(n ast.Node) bool {
-		for p := parent[n]; p != nil; p = parent[p] {
-			if blk, ok := p.(*ast.BlockStmt); ok {
-				if ifs, ok := parent[blk].(*ast.IfStmt); ok && ifs.Body == blk {
-					var cs []ast.Expr
-					conjuncts(ifs.Cond, &cs)
-					for _, c := range cs {
-						if w.isStampTest(c, recv, stamp, counter) {
-							return true
-						}
+	// implies: the condition holds only if the stamp equals the counter (one of its conjuncts is
+	// the stamp test; a disjunction at the top implies nothing)
+	implies := func(cond ast.Expr) bool {
+		var cs []ast.Expr
+		conjuncts(cond, &cs)
+		for _, c := range cs {
+			if w.isStampTest(c, recv, stamp, counter) {
+				return true
+			}
+		}
+		return false
+	}
+	// impliesWhenFalse: if the condition is false the stamp equals the counter (one of its
+	// disjuncts is `stamp != counter` or `!(stamp == counter)`)
+	var disjuncts func(e ast.Expr, out *[]ast.Expr)
+	disjuncts = func(e ast.Expr, out *[]ast.Expr) {
+		e = unparen(e)
+		if b, ok := e.(*ast.BinaryExpr); ok && b.Op == token.LOR {
+			disjuncts(b.X, out)
+			disjuncts(b.Y, out)
+			return
+		}
+		*out = append(*out, e)
+	}
+	impliesWhenFalse := func(cond ast.Expr) bool {
+		var ds []ast.Expr
+		disjuncts(cond, &ds)
+		for _, d := range ds {
+			d = unparen(d)
+			if b, ok := d.(*ast.BinaryExpr); ok && b.Op == token.NEQ {
+				eq := &ast.BinaryExpr{X: b.X, Op: token.EQL, Y: b.Y}
+				if w.isStampTest(eq, recv, stamp, counter) {
+					return true
+				}
+			}
+			if u, ok := d.(*ast.UnaryExpr); ok && u.Op == token.NOT && w.isStampTest(u.X, recv, stamp, counter) {
+				return true
+			}
+		}
+		return false
+	}
+	// leaves: the block always ends by leaving (return / continue / break / goto / panic)
+	leaves := func(b *ast.BlockStmt) bool {
+		if b == nil || len(b.List) == 0 {
+			return false
+		}
+		switch x := b.List[len(b.List)-1].(type) {
+		case *ast.ReturnStmt, *ast.BranchStmt:
+			return true
+		case *ast.ExprStmt:
+			if c, ok := x.X.(*ast.CallExpr); ok {
+				if id, ok := c.Fun.(*ast.Ident); ok && id.Name == "panic" {
+					return true
+				}
+			}
+		}
+		return false
+	}
+	// resets: the block assigns a fresh value to the memo, unconditionally
+	resets := func(b *ast.BlockStmt) bool {
+		for _, s := range b.List {
+			if as, ok := s.(*ast.AssignStmt); ok && as.Tok == token.ASSIGN && len(as.Lhs) == len(as.Rhs) {
+				for i, l := range as.Lhs {
+					if w.onRecv(l, recv, memo) && freshValue(as.Rhs[i]) {
+						return true
 					}
 				}
 			}
 		}
 		return false
 	}
+	// dominated: the node is only evaluated after a successful test `recv.stamp == d.counter`:
+	// right operand of `&&` whose left operand implies it, right operand of `||` whose left operand
+	// is its negation, then-branch (case body) of a condition that implies it, else-branch of its
+	// negation, or after an earlier `if recv.stamp != d.counter { ... leave / reset the memo }` of
+	// an enclosing block.  A function literal ends the search (it runs at another time).
+	// inGuardedCondition: the node stands inside the condition of an if (or the single expression
+	// of a case of a tagless switch) that implies the stamp test, reached through boolean and
+	// comparison operators, parentheses and len() only: whatever it reads only decides whether a
+	// condition holds that cannot hold without the stamp test, and the branch taken when it does
+	// not hold recomputes or is checked for its own reads.
+	inGuardedCondition := func(n ast.Node) bool {
+		cur := n
+		for p := parent[cur]; p != nil; cur, p = p, parent[p] {
+			switch x := p.(type) {
+			case *ast.ParenExpr, *ast.BinaryExpr, *ast.UnaryExpr:
+				continue
+			case *ast.CallExpr:
+				if id, ok := x.Fun.(*ast.Ident); ok && id.Name == "len" {
+					continue
+				}
+				return false
+			case *ast.IfStmt:
+				return ast.Node(x.Cond) == cur && implies(x.Cond)
+			case *ast.CaseClause:
+				if len(x.List) == 1 && ast.Node(x.List[0]) == cur && implies(x.List[0]) {
+					if blk, ok := parent[x].(*ast.BlockStmt); ok {
+						if sw, ok := parent[blk].(*ast.SwitchStmt); ok && sw.Tag == nil {
+							return true
+						}
+					}
+				}
+				return false
+			default:
+				return false
+			}
+		}
+		return false
+	}
+	dominatedOnly := func(n ast.Node) bool {
+		cur := n
+		for p := parent[cur]; p != nil; cur, p = p, parent[p] {
+			switch x := p.(type) {
+			case *ast.FuncLit:
+				return false
+			case *ast.BinaryExpr:
+				if x.Op == token.LAND && ast.Node(x.Y) == cur && implies(x.X) {
+					return true
+				}
+				if x.Op == token.LOR && ast.Node(x.Y) == cur && impliesWhenFalse(x.X) {
+					return true
+				}
+			case *ast.IfStmt:
+				if ast.Node(x.Body) == cur && implies(x.Cond) {
+					return true
+				}
+				if x.Else != nil && ast.Node(x.Else) == cur && impliesWhenFalse(x.Cond) {
+					return true
+				}
+			case *ast.CaseClause:
+				inBody := false
+				for _, st := range x.Body {
+					if ast.Node(st) == cur {
+						inBody = true
+					}
+				}
+				if inBody && len(x.List) == 1 && implies(x.List[0]) {
+					if blk, ok := parent[x].(*ast.BlockStmt); ok {
+						if sw, ok := parent[blk].(*ast.SwitchStmt); ok && sw.Tag == nil {
+							return true
+						}
+					}
+				}
+			case *ast.BlockStmt:
+				for _, st := range x.List {
+					if ast.Node(st) == cur {
+						break
+					}
+					if ifs, ok := st.(*ast.IfStmt); ok && ifs.Else == nil && impliesWhenFalse(ifs.Cond) && (leaves(ifs.Body) || resets(ifs.Body)) {
+						return true
+					}
+				}
+			}
+		}
+		return false
+	}
+	dominated := func(n ast.Node) bool { return dominatedOnly(n) || inGuardedCondition(n) }
 	// the unconditional top-level reset `recv.memo = nil`
 	resetPos := token.NoPos
 	for _, s := range fd.Body.List {
@@ -874,7 +1014,11 @@ func (w *world) memoDiscipline(fd *ast.FuncDecl, recv types.Object, memo, stamp,
 				if b.Op == token.EQL {
 					return true // a miss test
 				}
-				// a hit test: climb the enclosing conjunctions
+				// a hit test: fine when it is only evaluated after a successful stamp test ...
+				if dominated(sel) {
+					return true
+				}
+				// ... or when it is a conjunct beside the stamp test (the decision needs both)
 				var cur ast.Node = b
 				for {
 					up := parent[cur]
@@ -895,18 +1039,18 @@ func (w *world) memoDiscipline(fd *ast.FuncDecl, recv types.Object, memo, stamp,
 					}
 					break
 				}
-				bad = "memo-hit test at " + w.pos(sel) + " is not conjoined with " + stamp.String() + " == " + counter.String() + ": a result of an earlier generation is taken for valid"
+				bad = "memo-hit test at " + w.pos(sel) + " is neither dominated by nor conjoined with the test " + stamp.String() + " == " + counter.String() + ": a result of an earlier generation is taken for valid"
 				return false
 			}
 		}
 		// any other read
-		if guardedBody(sel) {
+		if dominated(sel) {
 			return true
 		}
 		if resetPos != token.NoPos && sel.Pos() > resetPos {
 			return true
 		}
-		bad = "memo read at " + w.pos(sel) + " before it is reset and outside a test of the generation stamp: a result of an earlier generation is used"
+		bad = "memo read at " + w.pos(sel) + " before it is reset and not dominated by a successful test " + stamp.String() + " == " + counter.String() + ": a result of an earlier generation is used"
 		return false
 	})
 	if bad != "" {
